@@ -10,7 +10,7 @@ SPEC_PROPS = {
 
 # rules of the trace specifications that describe documented behaviour no listed property states (the ticker's
 # timing and seriality): a failure is reported as a NONCONFORMANCE line (informational), never as a violation
-BEYOND_PROPERTIES = {"TicksOneAtATime", "TickerOneGoroutine", "TickNotBeforeDelay", "TickerRanAndEnded"}
+BEYOND_PROPERTIES = {"TicksOneAtATime", "TickerOneGoroutine", "TickNotBeforeDelay", "TickerRanAndEnded", "TickerKeepsTicking"}
 
 
 def record(ctx, name, test="TestVerifSys", rounds=None, tags="verif", env=None, timeout=900):
